@@ -12,11 +12,8 @@ def prepare() -> list[str]:
     from harness.translate import tsql
 
     errs = []
-    for f in (tsql.write_cc, tsql.write_multi):
-        try:
-            errs += f()
-        except Exception as e:  # noqa: BLE001
-            errs.append(f"T-sql capture/translation failed in {f.__name__}: {type(e).__name__}: {str(e)[:300]}")
+    for which in ("cc", "multi"):
+        errs += tsql.run_isolated(which)
     return errs
 
 
